@@ -672,17 +672,17 @@ Lemma dz_tokens_spec fuel : forall input layers nblzma chain cep (w : world),
 Proof.
   induction fuel as [|f IH]; intros input layers nblzma chain cep w Hch; cbn [dz_tokens]; [cbn; auto|].
   destruct input as [|b input']; [cbn; auto|].
-  destruct (dz_get_token (b :: input')) as [tok|]; [|cbn; auto].
+  destruct (dz_get_token_at (b :: input')) as [[skipped tok]|]; [|cbn; auto].
   destruct (negb (dc_layers c =? 0) && (layers + 1 >? dc_layers c)); [cbn; auto|].
   set (cs := if negb (index_of_mem_nocase tok s_gzip =? -1) then _ else _).
   destruct cs as [cetype stop]. destruct stop; [cbn; auto|].
   assert (Hnext : forall chain' cep' (w' : world), Forall dz_fresh chain' -> w_entity OT w' = w_entity OT w -> w_message OT w' = w_message OT w ->
-     let t := (if (length (b :: input') <=? S (length tok))%nat then mk_dz_tx OT chain' cep' w' false
-               else dz_tokens OT ask c f (skipn (S (length tok)) (b :: input'))
+     let t := (if (length (b :: input') <=? skipped + length tok + 1)%nat then mk_dz_tx OT chain' cep' w' false
+               else dz_tokens OT ask c f (skipn (skipped + length tok + 1) (b :: input'))
                       (if negb (dc_layers c =? 0) then layers + 1 else layers) (nblzma + 1) chain' cep' w') in
      w_entity OT (tx_w OT t) = w_entity OT w /\ w_message OT (tx_w OT t) = w_message OT w /\ Forall dz_fresh (tx_chain OT t)).
-  { intros chain' cep' w' Hc' He' Hm'. destruct (length (b :: input') <=? S (length tok))%nat; [cbn; auto|].
-    destruct (IH (skipn (S (length tok)) (b :: input')) (if negb (dc_layers c =? 0) then layers + 1 else layers) (nblzma + 1) chain' cep' w' Hc') as (?&?&?).
+  { intros chain' cep' w' Hc' He' Hm'. destruct (length (b :: input') <=? skipped + length tok + 1)%nat; [cbn; auto|].
+    destruct (IH (skipn (skipped + length tok + 1) (b :: input')) (if negb (dc_layers c =? 0) then layers + 1 else layers) (nblzma + 1) chain' cep' w' Hc') as (?&?&?).
     repeat split; auto; congruence. }
   destruct (negb (cetype =? c_dz_COMPRESSION_NONE)); [|apply Hnext; auto].
   destruct chain as [|l0 r0].
@@ -1013,15 +1013,15 @@ Lemma dz_tokens_D fuel : forall input layers nblzma chain cep (w : world),
 Proof.
   induction fuel as [|f IH]; intros input layers nblzma chain cep w; cbn [dz_tokens]; [reflexivity|].
   destruct input as [|b input']; [reflexivity|].
-  destruct (dz_get_token (b :: input')) as [tok|]; [|reflexivity].
+  destruct (dz_get_token_at (b :: input')) as [[skipped tok]|]; [|reflexivity].
   destruct (negb (dc_layers c =? 0) && (layers + 1 >? dc_layers c)); [reflexivity|].
   set (cs := if negb (index_of_mem_nocase tok s_gzip =? -1) then _ else _).
   destruct cs as [cetype stop]. destruct stop; [reflexivity|].
   assert (Hnext : forall chain' cep' (w' : world), dz_D w' = dz_D w ->
-     dz_D (tx_w OT (if (length (b :: input') <=? S (length tok))%nat then mk_dz_tx OT chain' cep' w' false
-               else dz_tokens OT ask c f (skipn (S (length tok)) (b :: input'))
+     dz_D (tx_w OT (if (length (b :: input') <=? skipped + length tok + 1)%nat then mk_dz_tx OT chain' cep' w' false
+               else dz_tokens OT ask c f (skipn (skipped + length tok + 1) (b :: input'))
                       (if negb (dc_layers c =? 0) then layers + 1 else layers) (nblzma + 1) chain' cep' w')) = dz_D w).
-  { intros chain' cep' w' H'. destruct (length (b :: input') <=? S (length tok))%nat; [exact H'|]. rewrite IH. exact H'. }
+  { intros chain' cep' w' H'. destruct (length (b :: input') <=? skipped + length tok + 1)%nat; [exact H'|]. rewrite IH. exact H'. }
   destruct (negb (cetype =? c_dz_COMPRESSION_NONE)); [|apply Hnext; reflexivity].
   pose proof (dz_create_D cetype w) as Hc.
   destruct chain as [|l0 r0]; destruct (dz_create OT ask c cetype w) as [[l|] w1]; cbn [snd] in Hc; try (apply Hnext; exact Hc); exact Hc.
@@ -1086,7 +1086,7 @@ Proof.
   assert (Hstop : (0 < dc_layers c -> Z.of_nat (length chain) <= dc_layers c) /\ dz_nlzma chain <= Z.max 0 (dc_lzma_layers c)).
   { split; [intros Hp; destruct Hlay; lia|lia]. }
   destruct input as [|b input']; [exact Hstop|].
-  destruct (dz_get_token (b :: input')) as [tok|]; [|exact Hstop].
+  destruct (dz_get_token_at (b :: input')) as [[skipped tok]|]; [|exact Hstop].
   destruct (negb (dc_layers c =? 0) && (layers + 1 >? dc_layers c)) eqn:Hlim; [exact Hstop|].
   set (layers2 := if negb (dc_layers c =? 0) then layers + 1 else layers).
   assert (Hlay2 : 0 < dc_layers c -> Z.of_nat (length chain) + 1 <= layers2 /\ layers2 <= dc_layers c).
@@ -1102,10 +1102,10 @@ Proof.
   assert (Hnext : forall chain' cep' (w' : world),
      (0 < dc_layers c -> Z.of_nat (length chain') <= layers2 /\ layers2 <= dc_layers c) ->
      dz_nlzma chain' <= Z.min (nblzma + 1) (Z.max 0 (dc_lzma_layers c)) ->
-     let t := (if (length (b :: input') <=? S (length tok))%nat then mk_dz_tx OT chain' cep' w' false
-               else dz_tokens OT ask c f (skipn (S (length tok)) (b :: input')) layers2 (nblzma + 1) chain' cep' w') in
+     let t := (if (length (b :: input') <=? skipped + length tok + 1)%nat then mk_dz_tx OT chain' cep' w' false
+               else dz_tokens OT ask c f (skipn (skipped + length tok + 1) (b :: input')) layers2 (nblzma + 1) chain' cep' w') in
      (0 < dc_layers c -> Z.of_nat (length (tx_chain OT t)) <= dc_layers c) /\ dz_nlzma (tx_chain OT t) <= Z.max 0 (dc_lzma_layers c)).
-  { intros chain' cep' w' Hl' Hz'. destruct (length (b :: input') <=? S (length tok))%nat.
+  { intros chain' cep' w' Hl' Hz'. destruct (length (b :: input') <=? skipped + length tok + 1)%nat.
     - cbn [tx_chain]. split; [intros Hp; destruct Hl'; lia|lia].
     - apply IH; auto; lia. }
   assert (Hsame : dz_nlzma chain <= Z.min (nblzma + 1) (Z.max 0 (dc_lzma_layers c))) by lia.
